@@ -388,14 +388,34 @@ def _get_expression_leaves(expression: exp.Expr) -> Iterator[exp.Expr]:
 
 def _get_non_expression_leaves(expression: exp.Expr) -> Iterator[tuple[str, t.Any]]:
     for arg, value in expression.args.items():
+        if isinstance(value, IGNORED_LEAF_EXPRESSION_TYPES):
+            # Identifiers are not diffed as nodes of their own, so they count as content of their parent
+            yield (arg, value)
+            continue
+
         if (
             value is None
             or isinstance(value, exp.Expr)
             or (isinstance(value, list) and isinstance(seq_get(value, 0), exp.Expr))
         ):
+            if isinstance(value, list):
+                identifiers = [v for v in value if isinstance(v, IGNORED_LEAF_EXPRESSION_TYPES)]
+                if identifiers:
+                    yield (arg, identifiers)
             continue
 
         yield (arg, value)
+
+
+def _children_changed_args(source: exp.Expr, target: exp.Expr, matchings: dict[int, int]) -> bool:
+    """The same (matched) children, in the same order, but stored under different args, e.g. x[1:] vs x[:1]"""
+    source_args = list(_expression_only_args(source))
+    target_args = list(_expression_only_args(target))
+    return (
+        len(source_args) == len(target_args)
+        and all(matchings.get(id(s)) == id(t) for s, t in zip(source_args, target_args))
+        and [s.arg_key for s in source_args] != [t.arg_key for t in target_args]
+    )
 
 
 def _is_same_type(source: exp.Expr, target: exp.Expr) -> bool:
